@@ -203,3 +203,4 @@ pub fn str_eq(a: &String, b: &str) -> (r: bool)
 {
     a == b
 }
+pub open spec fn cow_str_view(c: &Cow<'_, str>) -> Seq<char> { c@ }
